@@ -243,7 +243,7 @@ impl FrequencySketch {
     pub(crate) fn ensure_capacity(&mut self, cap: u32)
         requires old(self).wf(), cap <= 0x0800_0000u32, //@
         ensures final(self).wf(), //@ [C14,C08]
-            // C14: only grows; a resize forgets all counts (fresh zero table), otherwise nothing changes //@
+            // C14: only grows; a resize forgets all counts (fresh zero table), otherwise nothing changes
             final(self).table@.len() >= old(self).table@.len(), //@ [C14]
             final(self).table@.len() == old(self).table@.len() ==> *final(self) == *old(self), //@ [C14]
             final(self).table@.len() != old(self).table@.len() ==> (forall|i: int| 0 <= i < final(self).table@.len() ==> final(self).table@[i] == 0) //@ [C14]
@@ -313,11 +313,11 @@ impl FrequencySketch {
             final(self).table@.len() == old(self).table@.len(), //@ [C14]
             final(self).table_mask == old(self).table_mask, final(self).sample_size == old(self).sample_size, //@ [C14]
             old(self).table@.len() == 0 ==> *final(self) == *old(self), //@ [C14]
-            // no aging step happened: exact per-counter characterisation //@
+            // no aging step happened: exact per-counter characterisation
             old(self).table@.len() > 0 && !inc_resets(*old(self), hash) ==> ( //@ [C14]
                 forall|w: int, c: u64| 0 <= w < old(self).table@.len() && c < 16 ==> #[trigger] nib(final(self).table@[w], c) //@ [C14]
                     == bump(old(self).table@, old(self).table_mask, hash, w, c, 4)), //@ [C14]
-            // an aging step happened: every counter is the floor-half of its bumped value //@
+            // an aging step happened: every counter is the floor-half of its bumped value
             old(self).table@.len() > 0 && inc_resets(*old(self), hash) ==> ( //@ [C14]
                 forall|w: int, c: u64| 0 <= w < old(self).table@.len() && c < 16 ==> #[trigger] nib(final(self).table@[w], c) //@ [C14]
                     == bump(old(self).table@, old(self).table_mask, hash, w, c, 4) / 2), //@ [C14]
